@@ -320,6 +320,7 @@ Close(r, u) == Has(ups[r], u) /\ res' = OkR /\ UNCHANGED state
 Apply(o) ==
   CASE o.op = "PushBlob" -> PushBlob(o.r, o.c, o.dd, o.ds)
     [] o.op = "MountBlob" -> MountBlob(o.from, o.r, o.c)
+    [] o.op = "PostBlob" -> PushBlob(o.r, o.c, o.dd, Cat[o.c].size)   \* single-POST upload: the length is the body's own
     [] o.op = "PushManifest" -> PushManifest(o.r, o.t, o.c, o.mt)
     [] o.op = "PushBlobChunked" -> PushBlobChunked(o.r, o.u)
     [] o.op = "Resume" -> Resume(o.r, o.u, o.off)
